@@ -51,7 +51,23 @@ func init() {
 			return in.strTrimPrefix(a[0].(*Str), a[1].(*Str), true), true
 		},
 		"strings.TrimSpace": func(in *Interp, _ *frame, a []Value) (Value, bool) {
-			return in.mapConc(a[0].(*Str), "strings.TrimSpace", strings.TrimSpace), true
+			return in.strTrimSet(a[0].(*Str), "\t\n\v\f\r ", true, true, "strings.TrimSpace"), true
+		},
+		"bytes.TrimSpace": func(in *Interp, _ *frame, a []Value) (Value, bool) {
+			sl := a[0].(SliceV)
+			if sl.B == nil {
+				return sl, true
+			}
+			return in.strToBytes(in.strTrimSet(in.bytesToStr(sl), "\t\n\v\f\r ", true, true, "strings.TrimSpace")), true
+		},
+		"strings.Trim": func(in *Interp, _ *frame, a []Value) (Value, bool) {
+			return in.strTrimSet(a[0].(*Str), in.forceConc(a[1].(*Str), "cut set of strings.Trim"), true, true, "strings.Trim"), true
+		},
+		"strings.TrimLeft": func(in *Interp, _ *frame, a []Value) (Value, bool) {
+			return in.strTrimSet(a[0].(*Str), in.forceConc(a[1].(*Str), "cut set of strings.TrimLeft"), true, false, "strings.TrimLeft"), true
+		},
+		"strings.TrimRight": func(in *Interp, _ *frame, a []Value) (Value, bool) {
+			return in.strTrimSet(a[0].(*Str), in.forceConc(a[1].(*Str), "cut set of strings.TrimRight"), false, true, "strings.TrimRight"), true
 		},
 		"strings.Join": func(in *Interp, _ *frame, a []Value) (Value, bool) {
 			sl := a[0].(SliceV)
@@ -300,11 +316,27 @@ func init() {
 		"fmt.Print": func(in *Interp, _ *frame, a []Value) (Value, bool) {
 			return Tuple{IntV{in.tf.BV(64, 0)}, Iface{}}, true
 		},
-		"fmt.Fprintf": func(in *Interp, _ *frame, a []Value) (Value, bool) {
-			return Tuple{IntV{in.tf.BV(64, 0)}, Iface{}}, true
+		"fmt.Fprintf": func(in *Interp, fr *frame, a []Value) (Value, bool) {
+			return in.fprint(fr, a[0], func() (*Str, bool) {
+				s, ok := in.trySprintf(a[1].(*Str), a[2].(SliceV))
+				if !ok && a[1].(*Str).IsConc() {
+					s, ok = in.simpleSprintf(a[1].(*Str).Conc(), a[2].(SliceV))
+				}
+				return s, ok
+			}), true
 		},
-		"fmt.Fprintln": func(in *Interp, _ *frame, a []Value) (Value, bool) {
-			return Tuple{IntV{in.tf.BV(64, 0)}, Iface{}}, true
+		"fmt.Fprintln": func(in *Interp, fr *frame, a []Value) (Value, bool) {
+			return in.fprint(fr, a[0], func() (*Str, bool) { return in.trySprint(a[1].(SliceV), fmt.Sprintln) }), true
+		},
+		"fmt.Fprint": func(in *Interp, fr *frame, a []Value) (Value, bool) {
+			return in.fprint(fr, a[0], func() (*Str, bool) { return in.trySprint(a[1].(SliceV), fmt.Sprint) }), true
+		},
+		"fmt.Sprintln": func(in *Interp, _ *frame, a []Value) (Value, bool) {
+			s, ok := in.trySprint(a[0].(SliceV), fmt.Sprintln)
+			if !ok {
+				in.unsupported("fmt.Sprintln with unsupported arguments")
+			}
+			return s, true
 		},
 		"fmt.Errorf": func(in *Interp, _ *frame, a []Value) (Value, bool) {
 			return in.errorfModel(a[0].(*Str), a[1].(SliceV)), true
@@ -332,7 +364,11 @@ func init() {
 			return s, true
 		},
 		"fmt.Sprint": func(in *Interp, _ *frame, a []Value) (Value, bool) {
-			return concStr(in.tf, "<sprint>"), true
+			s, ok := in.trySprint(a[0].(SliceV), fmt.Sprint)
+			if !ok {
+				in.unsupported("fmt.Sprint with unsupported arguments")
+			}
+			return s, true
 		},
 		"errors.Is": func(in *Interp, _ *frame, a []Value) (Value, bool) {
 			return in.errorsIs(a[0].(Iface), a[1].(Iface)), true
@@ -612,6 +648,90 @@ func (in *Interp) hexEncode(b SliceV) *Str {
 type hashState struct {
 	alg  string
 	data []Value
+	str  *Str // the data written so far when some piece was a guarded union of strings (then data is unused)
+}
+
+// hashRec: one digest computed on the current path (for the collision-freedom axioms of hashFresh)
+type hashRec struct {
+	alg    string
+	data   *Str
+	digest []*Term
+	fresh  []*Term // for a digest made by hashFresh: its new vector
+}
+
+func (hs *hashState) writeStr(in *Interp, s *Str) {
+	if hs.str == nil {
+		hs.str = in.bytesToStr(SliceV{B: &Backing{E: hs.data}, Len: len(hs.data), Cap: len(hs.data)})
+		hs.data = nil
+	}
+	hs.str = in.strConcat(hs.str, s)
+}
+
+// hashFresh: ideal hash of data that the injective token cannot hold (longer than the digest, or a union of
+// alternatives).  The digest is the digest recorded earlier on this path for equal data of the same algorithm, and
+// otherwise a new vector (marker byte, four fresh bytes different from those of every other new vector, constant
+// filler) - so two digests on a path are equal if and only if their data are equal (collision-freedom; a real digest
+// or a token never has the shape of a new vector).
+func (in *Interp) hashFresh(alg string, data *Str, size int) []Value {
+	tf := in.tf
+	d := make([]*Term, size)
+	for i := range d {
+		switch {
+		case i == 0:
+			d[i] = tf.BV(8, 0xf0)
+		case i <= 4:
+			d[i] = in.freshVar("digest_"+alg, 8)
+		default:
+			d[i] = tf.BV(8, 0x5a)
+		}
+	}
+	for _, r := range in.hashRecs {
+		if r.fresh == nil {
+			continue
+		}
+		same := tf.T
+		for i := 1; i <= 4; i++ {
+			same = tf.And(same, tf.Eq(d[i], r.fresh[i]))
+		}
+		in.assume(tf.Not(same))
+	}
+	fresh := append([]*Term{}, d...)
+	for k := len(in.hashRecs) - 1; k >= 0; k-- {
+		r := in.hashRecs[k]
+		if r.alg != alg {
+			continue
+		}
+		eq := in.strEq(data, r.data)
+		if eq.IsFalse() {
+			continue
+		}
+		for i := range d {
+			d[i] = tf.Ite(eq, r.digest[i], d[i])
+		}
+	}
+	out := make([]Value, size)
+	for i := range d {
+		out[i] = IntV{d[i]}
+	}
+	in.hashRecs = append(in.hashRecs, hashRec{alg, data, d, fresh})
+	return out
+}
+
+// hashOfStr: digest of data given as a (possibly multi-alternative) string
+func (in *Interp) hashOfStr(alg string, data *Str, size int) []Value {
+	if len(data.Alts) == 1 {
+		a := &data.Alts[0]
+		symb := 0
+		for i := 0; i < a.Len(); i++ {
+			if !a.ByteAt(in.tf, i).IsConst() {
+				symb++
+			}
+		}
+		if symb == 0 || a.Len() <= size-2 {
+			return in.hashToken(alg, in.strToBytes(data), size)
+		}
+	}
+	return in.hashFresh(alg, data, size)
 }
 
 func (in *Interp) newHash(alg string) Value {
@@ -648,10 +768,16 @@ func (in *Interp) hashToken(alg string, data SliceV, size int) []Value {
 			d = x[:]
 		}
 		out := make([]Value, len(d))
+		dt := make([]*Term, len(d))
 		for i, b := range d {
-			out[i] = IntV{tf.BV(8, uint64(b))}
+			dt[i] = tf.BV(8, uint64(b))
+			out[i] = IntV{dt[i]}
 		}
+		in.hashRecs = append(in.hashRecs, hashRec{alg, in.bytesToStr(data), dt, nil})
 		return out
+	}
+	if data.Len > size-2 {
+		return in.hashFresh(alg, in.bytesToStr(data), size)
 	}
 	tag := map[string]uint64{"sha256": 0xa1, "sha512": 0xa2, "sha384": 0xa3}[alg]
 	out := []Value{IntV{tf.BV(8, tag)}, IntV{tf.BV(8, uint64(data.Len))}}
@@ -664,6 +790,11 @@ func (in *Interp) hashToken(alg string, data SliceV, size int) []Value {
 	for len(out) < size {
 		out = append(out, IntV{tf.BV(8, 0)})
 	}
+	dt := make([]*Term, len(out))
+	for i := range out {
+		dt[i] = out[i].(IntV).T
+	}
+	in.hashRecs = append(in.hashRecs, hashRec{alg, in.bytesToStr(data), dt, nil})
 	return out
 }
 
@@ -890,6 +1021,49 @@ func (in *Interp) errorsIs(err, target Iface) *Term {
 	return tf.F
 }
 
+// trySprint: fmt.Sprint / fmt.Sprintln of arguments with concrete alternatives.
+func (in *Interp) trySprint(args SliceV, f func(...interface{}) string) (s *Str, ok bool) {
+	defer func() {
+		if r := recover(); r != nil {
+			if pa, isPA := r.(pathAbort); isPA && pa.Kind == OUnsupported {
+				s, ok = nil, false
+				return
+			}
+			panic(r)
+		}
+	}()
+	return in.sprintWith(args, func(vals []interface{}) string { return f(vals...) })
+}
+
+// fprint: formatted output to a writer.  Output to an *os.File (the standard streams) is dropped; every other writer
+// receives the formatted bytes through its Write method, as the real fmt does.
+func (in *Interp) fprint(fr *frame, w Value, text func() (*Str, bool)) Value {
+	wi, _ := w.(Iface)
+	if wi.T == nil {
+		in.goPanic("fmt.Fprint to a nil writer")
+	}
+	if types.TypeString(wi.T, nil) == "*os.File" {
+		return Tuple{IntV{in.tf.BV(64, 0)}, Iface{}}
+	}
+	s, ok := text()
+	if !ok {
+		in.unsupported("fmt.Fprint* to a %s with unsupported arguments", wi.T)
+	}
+	if op, isOp := wi.V.(Opaque); isOp && op.Kind == "hash" && len(s.Alts) > 1 {
+		op.Obj.(*hashState).writeStr(in, s)
+		return Tuple{IntV{in.tf.BV(64, 0)}, Iface{}}
+	}
+	data := in.strToBytes(s)
+	if op, isOp := wi.V.(Opaque); isOp && op.Kind != "" {
+		return in.opaqueMethod(fr, wi, "Write", []Value{data})
+	}
+	m := in.W.prog.LookupMethod(wi.T, nil, "Write")
+	if m == nil {
+		in.unsupported("method Write not found on %s", wi.T)
+	}
+	return in.callFunction(m, []Value{wi.V, data}, nil, fr)
+}
+
 func (in *Interp) trySprintf(format *Str, args SliceV) (s *Str, ok bool) {
 	defer func() {
 		if r := recover(); r != nil {
@@ -906,10 +1080,16 @@ func (in *Interp) trySprintf(format *Str, args SliceV) (s *Str, ok bool) {
 // sprintfModel supports string / int / error / []string arguments whose
 // alternatives are concrete; the real fmt.Sprintf does the formatting.
 func (in *Interp) sprintfModel(format *Str, args SliceV) (*Str, bool) {
-	tf := in.tf
 	if !format.IsConc() {
 		return nil, false
 	}
+	f := format.Conc()
+	return in.sprintWith(args, func(vals []interface{}) string { return fmt.Sprintf(f, vals...) })
+}
+
+// sprintWith renders the arguments with the real fmt function for every combination of their concrete alternatives.
+func (in *Interp) sprintWith(args SliceV, render func([]interface{}) string) (*Str, bool) {
+	tf := in.tf
 	type combo struct {
 		g    *Term
 		vals []interface{}
@@ -1001,7 +1181,7 @@ func (in *Interp) sprintfModel(format *Str, args SliceV) (*Str, bool) {
 	}
 	alts := make([]SAlt, len(combos))
 	for i, c := range combos {
-		alts[i] = SAlt{G: c.g, S: fmt.Sprintf(format.Conc(), c.vals...)}
+		alts[i] = SAlt{G: c.g, S: render(c.vals)}
 	}
 	return normStr(tf, alts), true
 }
@@ -1330,13 +1510,22 @@ func (in *Interp) opaqueMethod(fr *frame, recv Iface, method string, args []Valu
 		switch method {
 		case "Write":
 			d := args[0].(SliceV)
+			if hs.str != nil {
+				hs.writeStr(in, in.bytesToStr(d))
+				return Tuple{IntV{in.tf.BV(64, uint64(d.Len))}, Iface{}}
+			}
 			for i := 0; i < d.Len; i++ {
 				hs.data = append(hs.data, d.B.E[d.Off+i])
 			}
 			return Tuple{IntV{in.tf.BV(64, uint64(d.Len))}, Iface{}}
 		case "Sum":
 			size := map[string]int{"sha256": 32, "sha512": 64, "sha384": 48}[hs.alg]
-			tok := in.hashToken(hs.alg, SliceV{B: &Backing{E: hs.data}, Len: len(hs.data), Cap: len(hs.data)}, size)
+			var tok []Value
+			if hs.str != nil {
+				tok = in.hashOfStr(hs.alg, hs.str, size)
+			} else {
+				tok = in.hashToken(hs.alg, SliceV{B: &Backing{E: hs.data}, Len: len(hs.data), Cap: len(hs.data)}, size)
+			}
 			pre := args[0].(SliceV)
 			var all []Value
 			for i := 0; i < pre.Len; i++ {
@@ -1345,7 +1534,7 @@ func (in *Interp) opaqueMethod(fr *frame, recv Iface, method string, args []Valu
 			all = append(all, tok...)
 			return SliceV{B: &Backing{E: all}, Len: len(all), Cap: len(all)}
 		case "Reset":
-			hs.data = nil
+			hs.data, hs.str = nil, nil
 			return nil
 		case "Size":
 			return IntV{in.tf.BV(64, uint64(map[string]int{"sha256": 32, "sha512": 64, "sha384": 48}[hs.alg]))}
